@@ -2249,3 +2249,63 @@ where
         Ok(())
     }
 }
+
+/// Verification hooks (only with `--cfg sonic_rs_verif`): expose private scanner pieces.
+#[cfg(sonic_rs_verif)]
+#[allow(missing_docs)]
+pub mod verif_hooks {
+
+    pub fn get_escaped_branchless_u32(prev_escaped: u32, backslash: u32) -> (u32, u32) {
+        let mut p = prev_escaped;
+        let r = super::get_escaped_branchless_u32(&mut p, backslash);
+        (r, p)
+    }
+
+    pub fn get_escaped_branchless_u64(prev_escaped: u64, backslash: u64) -> (u64, u64) {
+        let mut p = prev_escaped;
+        let r = super::get_escaped_branchless_u64(&mut p, backslash);
+        (r, p)
+    }
+
+    pub fn get_string_bits(
+        data: &[u8; 64],
+        prev_instring: u64,
+        prev_escaped: u64,
+    ) -> (u64, u64, u64) {
+        let (mut i, mut e) = (prev_instring, prev_escaped);
+        let r = super::get_string_bits(data, &mut i, &mut e);
+        (r, i, e)
+    }
+
+    /// returns (closing offset + 1 or 0, prev_instring, prev_escaped, lbrace_num, rbrace_num)
+    #[allow(clippy::too_many_arguments)]
+    pub fn skip_container_loop(
+        input: &[u8; 64],
+        prev_instring: u64,
+        prev_escaped: u64,
+        lbrace_num: usize,
+        rbrace_num: usize,
+        left: u8,
+        right: u8,
+    ) -> (u8, u64, u64, usize, usize) {
+        let (mut i, mut e, mut l, mut r) = (prev_instring, prev_escaped, lbrace_num, rbrace_num);
+        let ret = super::skip_container_loop(input, &mut i, &mut e, &mut l, &mut r, left, right);
+        (ret.map_or(0, |n| n.get()), i, e, l, r)
+    }
+
+    /// `Parser::error_index` clamp as done in `Parser::error`: (index reported, substituted by EOF)
+    pub fn parser_error_index(
+        error_index: usize,
+        reader_index: usize,
+        len: usize,
+    ) -> (usize, bool) {
+        let index = std::cmp::min(error_index, reader_index.saturating_sub(1));
+        if index > len {
+            (len, true)
+        } else {
+            (index, false)
+        }
+    }
+
+    pub const DEFAULT_KEY_BUF_CAPACITY: usize = super::DEFAULT_KEY_BUF_CAPACITY;
+}
